@@ -7,9 +7,15 @@ GO=/root/go/pkg/mod/golang.org/toolchain@v0.0.1-go1.24.0.linux-amd64/bin/go
 [ -x "$GO" ] || GO=go1.26.8
 export GOFLAGS=-mod=mod GOPROXY=off GOSUMDB=off GOTOOLCHAIN=local
 $GO version
-$GO build ./...
-$GO test -count=1 ./internal/...
-$GO test -count=1 -vet=off -run '^$' ./props/... >/dev/null
-# race-enabled standard library for the -race checks
-$GO test -count=1 -vet=off -race -run '^$' ./internal/harness/ >/dev/null 2>&1 || true
+$GO build ./internal/... ./cmd/...
+$GO test -count=1 ./internal/ref/... ./internal/fstrace/...
+# compile every registered property package once (warms the build cache; -race where the plan asks for it)
+for d in props/c*/; do
+  [ -f "$d/plan.json" ] || continue
+  if grep -q '"race": true' "$d/plan.json"; then
+    $GO test -count=1 -vet=off -race -tags verif -run '^$' "./$d" >/dev/null || echo "warning: $d does not build with -race"
+  else
+    $GO test -count=1 -vet=off -tags verif -run '^$' "./$d" >/dev/null || echo "warning: $d does not build"
+  fi
+done
 echo setup ok
